@@ -17,8 +17,8 @@ Open Scope list_scope.
 (* ---- wsvg -> svg2paths / Document / SaxDocument: d-strings in order, the
    supplied per-path attributes among those returned with unchanged values.
    For SaxDocument under the hypothesis that no style attribute is involved
-   (SaxDocument lets style declarations override attributes: finding
-   sax-style-overrides-attribute) ---- *)
+   (its values are computed values, a style declaration takes precedence over
+   the attribute of the same name: C18_sax_style_precedence) ---- *)
 Theorem C18_wsvg_roundtrip : forall c ds attrs svgattrs size,
     length attrs = length ds ->
     (* svg2paths *)
@@ -95,9 +95,20 @@ Proof. exact style_entries_total. Qed.
 Example C18_sax_style_repaired :
   style_entries repaired [("style", "fill:none;stroke:black;")] = Some [("stroke", "black"); ("fill", "none")].
 Proof. vm_compute. reflexivity. Qed.
-(* not repaired (finding sax-style-overrides-attribute): a style declaration
-   overrides the attribute of the same name in the values SaxDocument returns *)
-Example C18_sax_style_overrides_refuted :
+(* the values SaxDocument returns are computed values: a declaration in the
+   element's style attribute takes precedence over the presentation attribute
+   of the same name (CSS cascade, SVG 1.1 6.4), which takes precedence over the
+   inherited value.  (This was first classified as a finding
+   "sax-style-overrides-attribute"; it is what the specification prescribes,
+   the check now expects it.) *)
+Theorem C18_sax_style_precedence : forall inh a st k,
+    lookup k (update (update inh a) st)
+    = match lookup k st with
+      | Some v => Some v
+      | None => match lookup k a with Some v => Some v | None => lookup k inh end
+      end.
+Proof. exact values_precedence. Qed.
+Example C18_sax_style_precedence_example :
   option_map (fun r => map (lookup "fill") (snd r))
     (sax_read repaired (FE "" SVGNS "svg" []
        [FE "" SVGNS "path" [("d", "M0,0 L1,1"); ("fill", "red"); ("style", "fill:none")] []]))
@@ -232,6 +243,7 @@ Print Assumptions C18_wsvg_roundtrip.
 Print Assumptions C18_wsvg_svg_attributes.
 Print Assumptions C18_wsvg_roundtrip_partial.
 Print Assumptions C18_sax_style_total.
+Print Assumptions C18_sax_style_precedence.
 Print Assumptions C18_save_reload.
 Print Assumptions C18_sax_generate_dom_matrix.
 Print Assumptions C18_doc_history_refuted.
